@@ -681,6 +681,76 @@ func genJSON(r *lib.RNG) caseT {
 	return caseT{Kind: "seq", Stmts: out, Shape: "seq"}
 }
 
+// ---------- (f) trigger DDL + DML sequences ----------
+func genTrigger(r *lib.RNG) caseT {
+	out := []string{"CREATE TABLE t (id INT PRIMARY KEY, v INT)", "CREATE TABLE t2 (id INT PRIMARY KEY, v INT)", "CREATE TABLE audit1 (x INT)", "CREATE TABLE audit2 (x INT, y INT)",
+		"INSERT INTO t VALUES (1,1),(2,2)", "INSERT INTO t2 VALUES (1,1),(2,2)"}
+	tabs := []string{"t", "t2"}
+	nt := r.Range(1, 3)
+	for i := 0; i < nt; i++ {
+		tb := lib.Pick(r, tabs)
+		ev := lib.Pick(r, []string{"INSERT", "UPDATE", "DELETE"})
+		tm := lib.Pick(r, []string{"BEFORE", "BEFORE", "AFTER"})
+		ref := "NEW"
+		if ev == "DELETE" {
+			ref = "OLD"
+		}
+		other := "t2"
+		if tb == "t2" {
+			other = "t"
+		}
+		var body []string
+		nb := r.Range(1, 3)
+		for j := 0; j < nb; j++ {
+			switch r.Intn(7) {
+			case 0:
+				if tm == "BEFORE" && ev != "DELETE" {
+					body = append(body, fmt.Sprintf("SET NEW.v = NEW.v + %d", r.Range(1, 1000)))
+				} else {
+					body = append(body, fmt.Sprintf("INSERT INTO audit1 VALUES (%s.v)", ref))
+				}
+			case 1:
+				body = append(body, fmt.Sprintf("INSERT INTO audit1 VALUES (%s.v)", ref))
+			case 2:
+				body = append(body, fmt.Sprintf("INSERT INTO audit2 VALUES (%s.id, %s.v)", ref, ref))
+			case 3:
+				body = append(body, fmt.Sprintf("UPDATE %s SET v = v + %s.v WHERE id = %s.id", other, ref, ref))
+			case 4:
+				inner := fmt.Sprintf("INSERT INTO audit1 VALUES (%s.v)", ref)
+				if tm == "BEFORE" && ev != "DELETE" {
+					inner = "SET NEW.v = 5; " + inner
+				}
+				body = append(body, fmt.Sprintf("IF %s.v > %d THEN %s; END IF", ref, r.Range(0, 8), inner))
+			case 5:
+				body = append(body, fmt.Sprintf("DELETE FROM audit2 WHERE x = %s.id", ref))
+			default:
+				body = append(body, fmt.Sprintf("INSERT INTO %s VALUES (%s.id + 10, %s.v) ON DUPLICATE KEY UPDATE v = v + 1", other, ref, ref))
+			}
+		}
+		b := body[0]
+		if len(body) > 1 || r.Bool() {
+			b = "BEGIN " + strings.Join(body, "; ") + "; END"
+		}
+		out = append(out, fmt.Sprintf("CREATE TRIGGER tr%d %s %s ON %s FOR EACH ROW %s", i, tm, ev, tb, b))
+	}
+	nd := r.Range(2, 4)
+	for i := 0; i < nd; i++ {
+		tb := lib.Pick(r, tabs)
+		switch r.Intn(4) {
+		case 0:
+			out = append(out, fmt.Sprintf("INSERT INTO %s VALUES (%d, %d)", tb, r.Range(1, 6), r.Range(0, 12)))
+		case 1:
+			out = append(out, fmt.Sprintf("UPDATE %s SET v = v * 10 WHERE id = %d", tb, r.Range(1, 3)))
+		case 2:
+			out = append(out, fmt.Sprintf("DELETE FROM %s WHERE id = %d", tb, r.Range(1, 3)))
+		default:
+			out = append(out, fmt.Sprintf("INSERT INTO %s VALUES (%d, %d), (%d, %d)", tb, r.Range(3, 5), r.Range(0, 12), r.Range(6, 8), r.Range(0, 12)))
+		}
+	}
+	out = append(out, "SELECT * FROM t", "SELECT * FROM t2", "SELECT * FROM audit1", "SELECT * FROM audit2")
+	return caseT{Kind: "seq", Stmts: out, Shape: "seq"}
+}
+
 // ---------- child process for inputs that kill the process ----------
 func childMain(sqlText string) {
 	// an address-space limit and a small goroutine stack limit make the outcome independent of the machine:
@@ -784,6 +854,13 @@ func main() {
 			{Kind: "seq", Stmts: []string{"CREATE TABLE t (id INT PRIMARY KEY, a INT)", "UPDATE t SET @@session.sql_mode = 'x' WHERE id IN (SELECT id FROM t)"}},
 			{Kind: "seq", Stmts: []string{"CREATE TABLE t (id INT PRIMARY KEY, a INT, c INT)", "CREATE INDEX Iac ON t(a,c)", "INSERT INTO t VALUES (1,1,1)", "DROP INDEX Iac ON t", "INSERT INTO t VALUES (2,2,2)"}},
 			{Kind: "stmt", Shape: "corpus", SQL: "SELECT INTERVAL 1 DAY"},
+			{Kind: "seq", Stmts: []string{"CREATE TABLE t (id INT PRIMARY KEY, v INT)", "CREATE TABLE audit1 (x INT)",
+				"CREATE TRIGGER b BEFORE INSERT ON t FOR EACH ROW BEGIN IF NEW.v > 5 THEN SET NEW.v = 5; INSERT INTO audit1 VALUES (NEW.v); END IF; END", "INSERT INTO t VALUES (2,9)"}},
+			{Kind: "seq", Stmts: []string{"CREATE TABLE t (id INT PRIMARY KEY, v INT)", "CREATE TABLE t2 (id INT PRIMARY KEY, v INT)", "INSERT INTO t VALUES (1,1),(2,2)", "INSERT INTO t2 VALUES (1,1),(2,2)",
+				"CREATE TRIGGER b2 BEFORE UPDATE ON t2 FOR EACH ROW SET NEW.v = NEW.v + 1000",
+				"CREATE TRIGGER a BEFORE UPDATE ON t FOR EACH ROW BEGIN UPDATE t2 SET v = v + NEW.v WHERE id = NEW.id; END", "UPDATE t SET v = v*10 WHERE id = 2", "SELECT * FROM t"}},
+			{Kind: "seq", Stmts: []string{"CREATE TABLE t (id INT PRIMARY KEY, v INT)", "CREATE TABLE audit1 (x INT)", "INSERT INTO t VALUES (1,1),(2,2)",
+				"CREATE TRIGGER tr0 BEFORE UPDATE ON t FOR EACH ROW BEGIN IF NEW.v > 5 THEN SET NEW.v = 5; INSERT INTO audit1 VALUES (NEW.v); END IF; END", "UPDATE t SET v = v * 10 WHERE id = 2"}},
 			{Kind: "seq", Stmts: []string{`SELECT JSON_EXTRACT('{"a": null}', '$.a[1]')`, `SELECT JSON_CONTAINS_PATH('{"a": null}', 'one', '$.a[1].b')`}},
 			{Kind: "seq", Stmts: []string{`SELECT JSON_EXTRACT('{"a": 5}', '$.a.b', '$.a')`, `SELECT JSON_SEARCH('null', 'one', 's', NULL, '$[1]')`,
 				`SELECT * FROM JSON_TABLE('{"a": null}', '$.a' COLUMNS (x INT PATH '$[1]')) AS jt`,
@@ -814,10 +891,13 @@ func main() {
 			case k < 6:
 				cs = genSeq(r)
 			case k < 7:
-				if r.Bool() {
+				switch r.Intn(3) {
+				case 0:
 					cs = genIntroHint(r)
-				} else {
+				case 1:
 					cs = genJSON(r)
+				default:
+					cs = genTrigger(r)
 				}
 			default:
 				cs = genShuffle(r)
